@@ -492,6 +492,8 @@ def apply_mut(obj, scn, mut):
     if scn.get("target") == "hexital":
         names = [member_name(m) for m in scn["members"]]
         name = names[mem % len(names)]
+        if name not in obj.indicators:   # (a run that does not hold this member: nothing to do)
+            return
         ind = obj.indicator(name)
         n = len(ind.candles) if ind is not None else 0
         if op == "calculate_index" and n:
@@ -1148,6 +1150,14 @@ def gen_c13(rng, size=50):
                 clean.append([rng.choice([st, steps - 1]), rng.choice(["purge", "recalculate", "remove_indicator"]), tgt])
     clean.sort(key=lambda o: o[0])
     scn = {"check": "c13", "hx": cfg, "members": members, "keep_members": True, "stream": stream, "init": init, "chunks": chunks, "ops": clean}
+    if rng.random() < 0.2 and len(chunks) >= 2:
+        # maintenance calls aimed at the OBSERVED member itself, the same in company and alone (purge then an ordinary append, a
+        # recalculation of one index): what they leave behind for the next append must not depend on who else is registered
+        muts = [[] for _ in range(steps)]
+        for _ in range(rng.choice([1, 1, 2])):
+            muts[rng.randrange(0, steps - 1)].append([rng.choice(["purge", "purge", "calculate_index", "recalculate"]), 0, rng.choice([-1, -2, 0, 1])])
+        scn["target"] = "hexital"
+        scn["muts"] = muts
     if rng.random() < 0.3:
         scn["enc"] = rng.choice(["dict", "list_ts_first", "list_ts_last", "dict_iso"])   # the same raw rows go to every manager
     meta = {"flavour": flavour, "price": smeta["price"], "schedule": shape, "members": len(members), "shared_tf": bool(shared_tf),
